@@ -103,6 +103,10 @@ INFO = {
     "two concurrent writers, one of them in update() between its load and its store while the other completes a write: lost update"),
  "r5-c17-hp-abandon-active-count": ("C17", "hazard_pointer control block abandon() subtracts K instead of the block's number of hazard pointers from number_of_active_hps",
     "dynamic strategy, a thread whose block grew exits: total - K phantom active hazard pointers per generation; threshold and scan size grow with the number of threads ever created"),
+ "r5-c06-kirsch-bounded-behind-head": ("C06", "kirsch_bounded_kfifo_queue::not_in_valid_region (non-wrapping case) only tests 'beyond tail', not 'behind head'",
+    "k >= 2, an almost empty queue: the producer's slot CAS lands in a segment that head has just left; the push is reported successful, the value sits behind head"),
+ "r5-c13-leftright-wait-hoisted": ("C13", "left_right::update waits for the readers of the next version index before the first application instead of after the version toggle",
+    "a reader that loaded the version index and is stalled across a complete toggle wakes up during the next back-to-back update and reads the instance being modified"),
 }
 rows = []
 for sid in sorted(INFO):
@@ -116,14 +120,25 @@ for sid in sorted(INFO):
         m = re.search(r"(C\d\d) exit=(\d+)", line)
         if m:
             results[m.group(1)] = "caught" if m.group(2) == "1" else ("not caught" if m.group(2) == "0" else "harness exit %s" % m.group(2))
+    first = {}
+    fv = os.path.join(d, "check_results_first_version.txt")
+    if os.path.exists(fv):
+        # the change was first evaluated against an earlier version of the checks, which were strengthened afterwards; keep both
+        for line in open(fv):
+            m = re.search(r"(C\d\d) exit=(\d+)", line)
+            if m:
+                first[m.group(1)] = "caught" if m.group(2) == "1" else ("not caught" if m.group(2) == "0" else "harness exit %s" % m.group(2))
+        for k, v in first.items():
+            results.setdefault(k, v)
     def rd(name):
         p = os.path.join(d, name)
         return open(p).read().strip() if os.path.exists(p) else "?"
     meta = dict(property=prop, summary=summary, needs=needs, quick_checks=results, results_from=src,
+                **({"quick_checks_first_version": first} if first else {}),
                 demo_with_change=rd("demo_with.exit"), demo_without_change=rd("demo_without.exit"),
                 library_suite_with_change=rd("suite_with.log").splitlines()[-1] if rd("suite_with.log") != "?" else "?",
-                what_was_run="bin/eval_mutant.sh (demo with/without the change, full library test-suite with the change) and bin/eval_seeded_all.sh "
-                             "(patch applied to /repo, quick checks, /repo restored)")
+                what_was_run="bin/eval_mutant.sh or bin/eval_mutant_a.sh (demo with/without the change, full library test-suite with the change, in the scratch worktree) "
+                             "and bin/eval_mutant_b.sh / bin/eval_seeded_all.sh (patch applied to /repo, quick checks, /repo restored)")
     extra = os.path.join(d, "meta_extra.json")
     if os.path.exists(extra):
         meta.update(json.load(open(extra)))
